@@ -99,7 +99,14 @@ IsPrefixOf(a, b) == Len(a) <= Len(b) /\ \A x \in 1..Len(a) : a[x] = b[x]
 \* first position whose command exits with its skip code / runs into a limit / dies, if it is reached
 SkipsAt(s, i, x)   == LET tc == Assembled(s, i)[x] IN ~tc.det /\ tc.beh \in {"exit", "exitscript"} /\ tc.code = SkipCode(s, i, tc)
 DiesAt(s, i, x)    == LET tc == Assembled(s, i)[x] IN ~tc.det /\ tc.beh = "signal"
+\* in a document run as ONE script (Cram, --cram-compat) a command that ends the shell with a code other than the skip code
+\* ends the script: the remaining commands never run and scrut cannot assign results -- an execution error
+ScriptCutAt(s, i, x) == LET T == Assembled(s, i) IN
+                        /\ Script(s, i) /\ ~T[x].det /\ T[x].beh = "exitscript" /\ T[x].code # SkipCode(s, i, T[x])
+                        /\ \A y \in 1..(x - 1) : ~(T[y].beh = "exitscript") /\ T[y].code # SkipCode(s, i, T[y]) /\ T[y].beh # "signal"
+ScriptCutShort(s, i) == \E x \in 1..Len(Assembled(s, i)) : ScriptCutAt(s, i, x)
 HasFault(s) == \/ s.noshell
+               \/ (\E j \in 1..Len(s.docs) : ScriptCutShort(s, j))
                \/ (\E i \in 1..Len(s.docs) : s.docs[i].fault \in FaultKinds)
                \/ (\E j \in 1..Len(s.docs) : Script(s, j) /\ \E x \in 1..Len(Assembled(s, j)) :
                        Assembled(s, j)[x].t # None \/ Assembled(s, j)[x].det)
